@@ -295,7 +295,7 @@ func (w *World) sortOf(t types.Type, d *Decls) string {
 func (w *World) declRV(d *Decls) {
 	// reflect.Value: valid flag, wrapped dynamic value, and whether the Value's static
 	// kind is Interface (an element of []any obtained by Index is an Interface-kinded Value).
-	d.add("sort:RV", "(declare-datatypes ((RV 0)) (((mk_rv (rv_valid Bool) (rv_val Val) (rv_iface Bool)))))\n(define-fun rvkind ((v RV)) Int (ite (not (rv_valid v)) 0 (ite (rv_iface v) 20 (kindof (typeof (rv_val v))))))\n(declare-fun tconvertible (Int Int) Bool)\n(assert (forall ((t Int)) (! (tconvertible t t) :pattern ((tconvertible t t)))))")
+	d.add("sort:RV", "(declare-datatypes ((RV 0)) (((mk_rv (rv_valid Bool) (rv_val Val) (rv_iface Bool)))))\n(define-fun rvkind ((v RV)) Int (ite (not (rv_valid v)) 0 (ite (rv_iface v) 20 (kindof (typeof (rv_val v))))))\n(declare-fun tconvertible (Int Int) Bool)\n(assert (forall ((t Int)) (! (tconvertible t t) :pattern ((tconvertible t t)))))\n(assert (forall ((a Int) (b Int)) (! (=> (and (= (kindof a) 24) (= (kindof b) 24)) (tconvertible a b)) :pattern ((tconvertible a b)))))")
 }
 
 func structKey(t types.Type) string {
